@@ -90,13 +90,28 @@ pub fn run(tier: Tier) -> Report {
         );
         rep.set(&format!("inits[{label}]"), json!(m.inits.iter().map(|i| i.0.clone()).collect::<Vec<_>>()));
     }
-    rep.set("oracle", json!("for every accepted client datagram after the session is established, the link that received the unique copy (last_selected_idx, confirmed by queue growth / wire) must, at that instant, have phase != Registering (pre-call), not be timed out (harness's own rule with the configured timeout, pre-call fields) and not be stall-gated (flag as recomputed by the real selector in that very call); also: never dropped while a usable link exists"));
+    // selector clause over the link-state products (the selector alone, every previous index)
+    let (calls, distinct, fails, counts, sweeps) = super::c03::selector_eligibility_product(tier.is_quick());
+    rep.transitions += calls;
+    rep.traces += calls;
+    rep.states += distinct;
+    rep.set("selector_product", json!({"selector_calls": calls, "sweeps": sweeps}));
+    for v in fails {
+        rep.violations.push(v);
+    }
+    for (k, n) in counts {
+        rep.count_violation(&k, n);
+    }
+    rep.set("oracle", json!("selector product: whatever select_connection_idx returns (any previous index, both modes, every configuration) is not registering, not timed out (own rule) and not stall-gated after the call. World: for every accepted client datagram after the session is established, the link that received the unique copy (last_selected_idx, confirmed by queue growth / wire) must, at that instant, have phase != Registering (pre-call), not be timed out (harness's own rule with the configured timeout, pre-call fields) and not be stall-gated (flag as recomputed by the real selector in that very call); also: never dropped while a usable link exists"));
     rep.assume("pre-establishment forwarding (before the first REG3) is outside the statement and not judged");
     rep.assume("the select! glue is mirrored (world.rs) and bound by a call-order + token digest fingerprint");
     rep
 }
 
 pub fn replay(v: &Value) -> Result<(), String> {
+    if v["exploration"] == "selector-product" {
+        return super::c03::replay_eligibility(v);
+    }
     let mut ms = Vec::new();
     for tier in [Tier::Quick, Tier::Thorough] {
         for (l, m, _) in models(tier) {
